@@ -17,7 +17,10 @@ def make_wb(cells, sheet='S', arrays=None, names=None, iterate=None):
     wb = Workbook()
     ws = wb.active
     ws.title = sheet
+    tables = {k: v for k, v in cells.items() if k.startswith('__table')}
     for addr, v in cells.items():
+        if addr in tables:
+            continue
         if '!' in addr:
             sh, a = addr.split('!')
             if sh not in wb.sheetnames:
@@ -25,6 +28,16 @@ def make_wb(cells, sheet='S', arrays=None, names=None, iterate=None):
             wb[sh][a] = v
         else:
             ws[addr] = v
+    for name_ref in tables.values():
+        from openpyxl.worksheet.table import Table
+        tab = Table(displayName=name_ref[0], ref=name_ref[1])
+        tab._initialise_columns()
+        first_row = ws[name_ref[1].split(':')[0]].row
+        from openpyxl.utils import range_boundaries
+        c1, r1, c2, r2 = range_boundaries(name_ref[1])
+        for col, ci in zip(tab.tableColumns, range(c1, c2 + 1)):
+            col.name = str(ws.cell(row=r1, column=ci).value)
+        ws.add_table(tab)
     for ref, text in (arrays or {}).items():
         first = ref.split(':')[0]
         ws[first] = ArrayFormula(ref, text)
